@@ -15,7 +15,8 @@ func init() {
 		MinEvals: 50000,
 		Rule: "case = 1-3 generated tokens (v2 with secret length 1-80 dense at 40, hex/non-hex/upper-case, extra segments, malformed uuid; legacy [0-9a-z]{41,} with local ground truth local|remote-owned|mixed|unknown and optional lookup fault; opaque strings) x remote cluster id x placement " +
 			"(Authorization OAuth2/Bearer/Basic, api_token query, form body with exact/parameterised content type, arvados_api_token cookie) x call site " +
-			"(auth.SaltToken; federation.saltedTokenProvider with stub local backend; federation.New + rpc.Conn against a byte-recording stub remote; controller Handler legacy proxy with fake database/sql driver against a byte-recording stub remote; keepstore router -> remoteProxy.Get against stub remote API + Keep service); " +
+			"(auth.SaltToken; federation.saltedTokenProvider with stub local backend; federation.New + rpc.Conn against a byte-recording stub remote; controller Handler legacy proxy with fake database/sql driver against a byte-recording stub remote; keepstore router -> remoteProxy.Get against stub remote API + two Keep services; " +
+			"keepstore-concurrent: 2-5 callers with different tokens fetch different blocks (unique hash = attribution of every probe) from one remote through one router at overlapping times, remote answers the first probes 404/408/429/500/503 and holds probes while other callers pass (deterministic schedule of start/release steps, plus free-running cases and the minimal B-held/A-passes/B-retries interleaving for every token kind): every probe must carry its own caller's token in an allowed form, never another caller's token or an unsalted secret); " +
 			"oracle = reference model over Go stdlib HMAC-SHA1 (cross-checked against Python hmac): every token-bearing spot the remote received must hold an allowed form of an input token (N1,N2,N4), and the unsalted secret (>= 8 chars) is searched raw/URL-encoded/base64/base64url in request target, headers, body and raw bytes (N3); refusing to forward is always accepted; " +
 			"non-trivial = the call site produced or forwarded something (not refused); distinct = (call site, token class, secret kind, length class, belongs-to-remote, placement, outcome) tuples",
 		Assume: []string{
